@@ -1,33 +1,76 @@
-(* C10 — expressions parse with XPath 1.0 precedence and associativity.
-   Property theorems only; proofs in Proofs/ParseAssoc.v and Proofs/ParseTerm.v.
-   PARTIAL: proved here — every binary level of the parser ('or', 'and',
-   equality, relational, additive, multiplicative, union) is the same
-   left-associative loop, in that nesting order, for operator chains of ANY
-   length; the parser terminates.  Not proved: the full print/parse round trip
-   (that the token rules and the nine tiers are exactly the W3C grammar) — that
-   part is decided by the correspondence check (all operator chains up to
-   length 3/4 over all operator tuples, white space, abbreviations). *)
-From Coq Require Import List String.
+(* C10 — expressions parse with XPath 1.0 precedence, associativity and token
+   rules.  Property theorems only; proofs in Proofs/ScanTokens.v,
+   Proofs/RoundTripOps.v, Proofs/RoundTripPaths.v, Proofs/RoundTripWs.v,
+   Proofs/ParseAssoc.v, Proofs/ParseTerm.v.
+   [px] (RoundTripPaths.v) is the syntax of XPath expressions written as the
+   GRAMMAR structures them — the nine tiers or < and < equality < relational <
+   additive < multiplicative < unary minus < union < path as a datatype with a
+   well-formedness predicate [xwf] (left operand of a level-k operator at level >= k,
+   right operand at level > k: left associativity), location paths with all axes,
+   node tests, predicates, function calls, variables, parentheses, filter
+   expressions; [xast e] is the parse tree the grammar assigns; [print_min],
+   [print_ws] print the token list of e.  The round trip
+   parse (print e) = Ok (xast e) therefore says that the parser groups every
+   expression, of ANY size, as the grammar prescribes.
+   Not covered by [px] (decided by the correspondence check only): qualified names
+   p:a, decimals and double-quoted strings, a bare "/" operand, the step form
+   (a, b), non-ASCII text. *)
+From Coq Require Import List String Ascii.
 From XP Require Import Base Ast Scan Parse.
-From XP.Proofs Require Import ParseTerm ParseAssoc.
+From XP.Proofs Require Import ParseTerm ParseAssoc ScanTokens RoundTripOps RoundTripPaths RoundTripWs.
 
-(* a binary level that reads operands a0 op1 a1 op2 a2 ... opk ak returns
-   ((a0 op1 a1) op2 a2) ... opk ak, for every k *)
+(* precedence and associativity: round trip through the real scanner and parser *)
+Theorem C10_round_trip : forall ns e,
+  xwf e -> xok e -> xdepth e < max_depth -> parse (print_min e) ns = Ok (xast e).
+Proof. exact roundtrip_print_min. Qed.
+Print Assumptions C10_round_trip.
+
+(* ... for every admissible layout of the same tokens (any white space anywhere
+   between tokens, as long as neighbouring tokens do not fuse) *)
+Theorem C10_round_trip_any_layout : forall ns e L,
+  xwf e -> xdepth e < max_depth -> lay_ok L = true -> map snd L = (xtoks e ++ (TEOF :: nil))%list ->
+  parse (string_of_list (render L)) ns = Ok (xast e).
+Proof. exact roundtrip_paths_layout. Qed.
+Print Assumptions C10_round_trip_any_layout.
+
+(* white space: two arbitrary choices of white space at every token boundary give
+   the same parse tree (the one of the grammar) *)
+Theorem C10_white_space : forall ns w1 w2 e,
+  ws_fun w1 -> ws_fun w2 -> xwf e -> xok e -> xdepth e < max_depth ->
+  parse (print_ws w1 e) ns = parse (print_ws w2 e) ns /\ parse (print_ws w1 e) ns = Ok (xast e).
+Proof. exact C10_white_space_2. Qed.
+Print Assumptions C10_white_space.
+
+(* at the scanner: white space in front of a token never changes the token *)
+Theorem C10_white_space_before_token : forall s ws ws' l,
+  forallb ws_char ws = true -> forallb ws_char ws' = true -> s_rest s = (ws ++ l)%list ->
+  next_item s = next_item (set_rest s (ws' ++ l)%list).
+Proof. exact C10_ws_before_token. Qed.
+Print Assumptions C10_white_space_before_token.
+
+(* abbreviations: a = child::a, @a = attribute::a, . = self::node(), .. = parent::node(),
+   // = /descendant-or-self::node()/ : both spellings parse, to the same tree up to
+   the unused [prop] field of a step and the spelling recorded in the root node *)
+Theorem C10_abbreviations_mean_their_expansion : forall ns e,
+  xwf e -> xok e -> xdepth e < max_depth ->
+  exists a a', parse (print_min e) ns = Ok a /\ parse (print_min (expand e)) ns = Ok a' /\ erase a = erase a'.
+Proof. exact C10_abbreviations. Qed.
+Print Assumptions C10_abbreviations_mean_their_expansion.
+
+(* the mechanism: every binary level is the same left-associative loop ... *)
 Theorem C10_left_associative : forall getop sub st0 a0 st1 ops stf fuel,
   sub st0 = Ok (a0, st1) -> bin_run getop sub st1 ops stf -> List.length ops < fuel ->
   bin_level fuel getop sub st0 = Ok (left_fold a0 ops, stf).
 Proof. exact bin_level_left_assoc. Qed.
 Print Assumptions C10_left_associative.
 
-(* conversely every successful binary level is such a left fold *)
 Theorem C10_only_left_folds : forall getop sub fuel st r stf,
   bin_level fuel getop sub st = Ok (r, stf) ->
   exists a0 st1 ops, sub st = Ok (a0, st1) /\ bin_run getop sub st1 ops stf /\ r = left_fold a0 ops.
 Proof. exact bin_level_inv. Qed.
 Print Assumptions C10_only_left_folds.
 
-(* the tiers: or < and < equality < relational < additive < multiplicative <
-   unary minus < union < path: each level's operands are parsed by the next one *)
+(* ... and the tiers are nested in the stated order *)
 Theorem C10_tiers : forall f pexpr pstep n,
   or_expr_b f pexpr pstep n = bin_level f op_or (and_expr_b f pexpr pstep n) /\
   and_expr_b f pexpr pstep n = bin_level f op_and (eq_expr_b f pexpr pstep n) /\
@@ -39,18 +82,6 @@ Theorem C10_tiers : forall f pexpr pstep n,
 Proof. exact levels_are_bin_level. Qed.
 Print Assumptions C10_tiers.
 
-(* those named levels are the parser: a successful parseExpression is a left fold at the 'or' level *)
-Theorem C10_expression_is_or_level : forall ns f n st r st',
-  pgo ns (S f) EExpr n st = Ok (r, st') ->
-  let sub := and_expr_b f (pgo ns f EExpr) (pgo ns f EStep) n in
-  exists a0 st1 ops stf,
-    sub (mkP (p_s st) (S (p_d st))) = Ok (a0, st1) /\
-    bin_run op_or sub st1 ops stf /\ r = left_fold a0 ops /\ st' = mkP (p_s stf) (p_d stf - 1).
-Proof. exact pgo_expr_left_assoc. Qed.
-Print Assumptions C10_expression_is_or_level.
-
-(* white space: the scanner skips it before every token (so inserting it between
-   tokens cannot change the token stream) — stated for the end-of-input token *)
 Theorem C10_parse_terminates : forall text ns, parse text ns <> OutOfFuel.
 Proof. exact parse_terminates. Qed.
 Print Assumptions C10_parse_terminates.
